@@ -86,6 +86,9 @@ def form(D, f):
         return np.array(D, dtype=float)
     if f == "f32":
         return np.array(D, dtype=np.float32)
+    if f == "f64F":
+        # column-major float64 of the same values, the way np.array([births, deaths]).T arrives: a transposed view that owns no data
+        return np.array(D, dtype=float).T.copy().T
     raise ValueError(f)
 
 
@@ -500,7 +503,8 @@ def vary(D, variant):
 
 
 def variant_forms(variant, forms):
-    return [f for f in forms if not (f == "int" and variant == 2)]
+    fs = [f for f in forms if not (f == "int" and variant == 2)]
+    return fs + (["f64F"] if "f64" in fs else [])
 
 
 def _imager(**kw):
@@ -546,8 +550,8 @@ def make_pool(f, variant=0):
     D1, D2, D3, DI, D8A, D8B, DIL = [vary(D, variant) for D in _BASE]
     P = {
         "A": form(D1, dform), "B": form(D2, dform), "C": form(D3, dform),
-        "I": form(DI, dform if dform in ("list", "f32") else "f64"),
-        "IL": form(DIL, dform if dform in ("list", "f32") else "f64"),
+        "I": form(DI, dform if dform in ("list", "f32", "f64F") else "f64"),
+        "IL": form(DIL, dform if dform in ("list", "f32", "f64F") else "f64"),
         "G1": form(G1, gf), "G2": form(G2, gf), "G3": form(G3, gf),
         "CY6": form(cycle(6), gf), "CY8": form(cycle(8), gf), "ST5": form(star(5), gf),
         "GR34": form(grid_graph(3, 4), gf), "GR35": form(grid_graph(3, 5), gf), "TR15": form(binary_tree(15), gf), "CY14": form(cycle(14), gf),
@@ -598,7 +602,7 @@ def defaults_fingerprint():
 
 
 def bounds(tier):
-    return {"thunks": len(thunks()), "forms": ["list", "int", "f64", "f32"], "sequence_length": 3 if tier == "quick" else 4}
+    return {"thunks": len(thunks()), "forms": ["list", "int", "f64", "f32", "f64F (column-major transposed view)"], "sequence_length": 3 if tier == "quick" else 4}
 
 
 def eval_all_in_order(order_names):
